@@ -69,3 +69,9 @@ PROPS['C18'] = dict(
     stages=[dict(name='scripts', bin='pipes_race', shards=shards(4, 12), par=12, crash_is_violation=True, crash_key='pipes:crash')],
     need_counters=['bridge_writes', 'bridge_delivered', 'bridge_reorder_batches', 'bridge_drop_calls', 'dpipe_reads', 'dpipe_reads_after_peer_close'],
 )
+
+PROPS['C13'] = dict(
+    level='exploration', builds={'vaddr_race': dict(pkg='./cmd/vaddr', overlay='shim', race=True)},
+    stages=[dict(name='addr', bin='vaddr_race', shards=shards(4, 12), par=12, crash_is_violation=True, crash_key='addr:crash')],
+    need_counters=['attaches', 'auto_assigned', 'static_assigned', 'delivery_probes', 'binds', 'binds_conflicting', 'binds_ephemeral', 'probes_delivered', 'closes'],
+)
